@@ -248,6 +248,11 @@ H("c12_mp_consumers_o1", L, "C12", ["C12", "C01", "C02", "C03", "C06"], "quick",
   "N=2, prefix <=2/<=1, budget 2")
 H("c12_bc_consumers_o1", L, "C12", ["C12", "C01", "C02", "C03", "C06"], "thorough",
   "broadcast: consumers of one stream 1->2->1 during traffic", "N=2, budget 2")
+for n, w in (("c12_mp_senders2", "mpmc: sender handles 1->2->1: clone tx, the clone sends, the clone is dropped; the long-lived sender (which sent in single-writer state before) sends and the consumer receives at the churning actor's preemption points"),
+             ("c12_bc_senders2", "broadcast: sender handles 1->2->1 (as c12_mp_senders2)"),
+             ("c12_mp_consumers2", "mpmc: consumer handles of one stream 1->2->1: clone rx, the clone receives, the clone is dropped; the producer sends and the long-lived consumer receives at the churning actor's preemption points"),
+             ("c12_bc_consumers2", "broadcast: consumer handles of one stream 1->2->1 (as c12_mp_consumers2)")):
+    H(n, L, "C12", ["C12", "C01", "C02", "C03", "C06"], "quick", w, "N=2, symbolic prefix, budget 2, <=2 operations per site")
 for n, w in (("c13_mp_one", "mpmc, one receiver handle"), ("c13_mp_two_handles", "mpmc, two handles of one stream"),
              ("c13_bc_two_streams", "broadcast, two streams, two senders"), ("c13_bc_two_handles", "broadcast N=1, two handles of one stream"),
              ("c13_bc_two_streams_rx0first", "broadcast N=1, two streams, stream 0 removed first")):
